@@ -767,3 +767,10 @@ func init() {
 		return ChanRef{c: &ChanObj{id: in.objN, cap: 1, et: fn.Signature.Results().At(0).Type().Underlying().(*types.Chan).Elem()}}
 	}
 }
+
+func init() {
+	// timers never fire on their own in the engine, so Stop/Reset always find
+	// them active
+	libModels["(*time.Timer).Stop"] = func(in *Interp, fn *ssa.Function, args []Value) Value { return TTrue }
+	libModels["(*time.Timer).Reset"] = func(in *Interp, fn *ssa.Function, args []Value) Value { return TTrue }
+}
